@@ -1,8 +1,10 @@
-/- Helper lemmas for C13 (layout of list containers). -/
+/-
+  Helper lemmas for C13 (layout of list containers):
+  `ContainersOrder` — cells, the ordered map, row heights, bands;
+  `ContainersRender` — what `render` of a list container computes;
+  `ContainersDraw` — where `drawColumns` puts the items and their labels.
+-/
 import Simpleline.Spec.WidgetSpec
 import Simpleline.Lemmas.ContainersOrder
 import Simpleline.Lemmas.ContainersRender
-
-namespace Simpleline
-
-end Simpleline
+import Simpleline.Lemmas.ContainersDraw
